@@ -974,3 +974,19 @@ P('C17-Q', 'C17', 'C17.R3'); P('C17-R', 'C09', 'C09.R1')
 P('C18-Q', 'C18', 'C18.R1'); P('C18-R', 'C18', 'C18.R5')
 P('C20-Q', 'C20', 'C20.R1'); P('C20-R', 'C20', 'C20.R2')
 P('C19-Q', 'C19', 'C19.R1'); P('C19-R', 'C08', 'C08.R1')
+
+# grammar-level mutation sweep (tools/mutation_sweep.py --grammar): survivors of the test suite
+M('c15-gm-method-call-trailing-comma-dropped', 'C15', 'C15.R4', RUL,
+  "                   | expression DOT NAME LPAREN arglist COMMA RPAREN\n", "")
+M('c15-gm-pipe-call-trailing-comma-dropped', 'C15', 'C15.R4', RUL,
+  "                   | expression PIPE NAME LPAREN arglist COMMA RPAREN\n", "")
+M('c15-gm-pipe-call-trailing-comma-symbols-swapped', 'C15', 'C15.R4', RUL,
+  "                   | expression PIPE NAME LPAREN arglist COMMA RPAREN\n",
+  "                   | expression NAME PIPE LPAREN arglist COMMA RPAREN\n")
+# equivalent mutants: the LALR tables are identical (these rows never decide a conflict)
+B('c06-gm-assign-row-right', ['C06', 'C15', 'C18'], LEX, "    ('left', 'ASSIGN'),", "    ('right', 'ASSIGN'),")
+B('c06-gm-dot-row-right', ['C06', 'C15'], LEX, "    ('left', 'DOT'),", "    ('right', 'DOT'),")
+B('c06-gm-unot-row-left', ['C06'], LEX, "    ('right', 'UNOT'),", "    ('left', 'UNOT'),")
+B('c06-gm-lbracket-row-right', ['C06'], LEX, "    ('left', 'LBRACKET'),", "    ('right', 'LBRACKET'),")
+B('c06-gm-pipe-dot-rows-swapped', ['C06', 'C15'], LEX, "    ('left', 'PIPE'),\n    ('left', 'DOT'),", "    ('left', 'DOT'),\n    ('left', 'PIPE'),")
+B('c16-gm-reserved-while-dropped', ['C16', 'C20', 'C06'], RUL, "                   | WHILE\n", "")
